@@ -51,6 +51,10 @@ type Shape struct {
 	// Via: "" / "direct" = the modifier is called by the harness; "pipe_body" / "pipe_na" = the message goes
 	// through a real msgpipeline (check adding an over-signed field + modify.dkim + queue) by Body / BodyNonAtomic
 	Via string `json:"via"`
+	// the h= layer (fields.go): the signer's field configuration and the name of every field of Hdr;
+	// absent in rows stored before the layer existed (then: default configuration, names picked here)
+	Fc *FieldCfg `json:"fc,omitempty"`
+	Nm []Name    `json:"nm,omitempty"`
 }
 
 type Row struct {
@@ -74,12 +78,27 @@ func mixCase(s string) string {
 
 func concretise(sh Shape, from string, rng *rand.Rand) (hdr []byte, body []byte, firstAtomField string) {
 	tag := fmt.Sprintf("%08x", rng.Uint32())
+	tag0 := tag
 	var h bytes.Buffer
 	h.WriteString("Received: from client by mx with ESMTP; " + tag + "\r\n")
+	var names []string
+	if len(sh.Nm) == len(sh.Hdr) {
+		names = fieldNames(sh, rng)
+	}
 	for i, a := range sh.Hdr {
-		name := namePool[(i+rng.Intn(3))%len(namePool)]
-		if i == 0 {
-			firstAtomField = name
+		name := ""
+		if names != nil {
+			// the model names the field; the value carries the index so that instances of one name differ
+			name = names[i]
+			if firstAtomField == "" && sh.Fc.kindOf(name) != "free" {
+				firstAtomField = name // the legacy "remove" tampering needs a signed field
+			}
+			tag = fmt.Sprintf("%s.%d", tag0, i)
+		} else {
+			name = namePool[(i+rng.Intn(3))%len(namePool)]
+			if i == 0 {
+				firstAtomField = name
+			}
 		}
 		switch a {
 		case "plain":
@@ -114,6 +133,7 @@ func concretise(sh Shape, from string, rng *rand.Rand) (hdr []byte, body []byte,
 			panic("unknown header atom " + a)
 		}
 	}
+	tag = tag0
 	h.WriteString("From: Sender <" + from + ">\r\n")
 	h.WriteString("Date: Thu, 01 Oct 2026 00:00:00 +0000\r\n")
 	h.WriteString("\r\n")
@@ -218,7 +238,7 @@ func newEnv(t *testing.T) *env {
 }
 
 func (e *env) modifier(t *testing.T, sh Shape, domain string) (*moddkim.Modifier, crypto.PublicKey) {
-	key := fmt.Sprintf("%s/%s/%s/%v", sh.Key, sh.Hc, sh.Bc, sh.Idn)
+	key := fmt.Sprintf("%s/%s/%s/%v/%s", sh.Key, sh.Hc, sh.Bc, sh.Idn, sh.Fc.key())
 	if m, ok := e.mods[key]; ok {
 		return m, e.pubs[key]
 	}
@@ -228,14 +248,14 @@ func (e *env) modifier(t *testing.T, sh Shape, domain string) (*moddkim.Modifier
 		t.Fatal(err)
 	}
 	m := mod.(*moddkim.Modifier)
-	err = m.Init(config.NewMap(nil, config.Node{Children: []config.Node{
+	err = m.Init(config.NewMap(nil, config.Node{Children: append([]config.Node{
 		{Name: "domains", Args: []string{domain}},
 		{Name: "selector", Args: []string{"sel"}},
 		{Name: "key_path", Args: []string{filepath.Join(kdir, "{domain}.key")}},
 		{Name: "newkey_algo", Args: []string{sh.Key}},
 		{Name: "header_canon", Args: []string{sh.Hc}},
 		{Name: "body_canon", Args: []string{sh.Bc}},
-	}}))
+	}, sh.Fc.nodes()...)}))
 	if err != nil {
 		t.Fatal(err)
 	}
@@ -454,7 +474,7 @@ func runRow(t *testing.T, e *env, r Row, tr *vtrace.Tracer, seed int64) {
 	bodyBuf := buffer.MemoryBuffer{Slice: body}
 	out := vtrace.Ev{"delivered": false, "signed": false, "verifiedIndep": false, "verifiedLib": false,
 		"tamper":   map[string]bool{"remove": false, "alter": false, "add_oversigned": false},
-		"hdrEqual": false, "bodyEqual": false, "note": "", "copies": 0, "fault": false}
+		"hdrEqual": false, "bodyEqual": false, "note": "", "copies": 0, "fault": false, "tampers": []tamper{}}
 	emit := func() { tr.Emit("Row", vtrace.Ev{"in": r.In, "out": out}) }
 	if err := st.RewriteBody(ctx, &hdr, bodyBuf); err != nil {
 		out["note"] = "sign: " + err.Error()
@@ -478,12 +498,12 @@ func runRow(t *testing.T, e *env, r Row, tr *vtrace.Tracer, seed int64) {
 	out["delivered"] = true
 	out["copies"] = 1 + e.extra
 	out["fault"] = fault
-	judge(out, got, pub, body, firstField, signed.Bytes()[:bytes.Index(signed.Bytes(), []byte("\r\n\r\n"))+4])
+	judge(out, r.In.Fc, got, pub, body, firstField, signed.Bytes()[:bytes.Index(signed.Bytes(), []byte("\r\n\r\n"))+4])
 	emit()
 }
 
 // judge fills the verification and tampering outcomes of a row from what the next hop received.
-func judge(out vtrace.Ev, got []byte, pub crypto.PublicKey, body []byte, firstField string, wantHdr []byte) {
+func judge(out vtrace.Ev, fc *FieldCfg, got []byte, pub crypto.PublicKey, body []byte, firstField string, wantHdr []byte) {
 	// what arrived = Received-less? the SMTP client adds nothing; compare from the signature on
 	_, gotBody, _ := splitMessage(got)
 	out["bodyEqual"] = bytes.Equal(gotBody, body)
@@ -505,7 +525,7 @@ func judge(out vtrace.Ev, got []byte, pub crypto.PublicKey, body []byte, firstFi
 	var removed, altered bytes.Buffer
 	done := false
 	for _, f := range fields {
-		if !done && strings.EqualFold(strings.TrimSpace(f.name), firstField) {
+		if !done && firstField != "" && strings.EqualFold(strings.TrimSpace(f.name), firstField) {
 			done = true
 			continue
 		}
@@ -513,7 +533,7 @@ func judge(out vtrace.Ev, got []byte, pub crypto.PublicKey, body []byte, firstFi
 	}
 	removed.WriteString("\r\n")
 	removed.Write(gotBody)
-	tam["remove"] = Verify(removed.Bytes(), pub) == nil
+	tam["remove"] = done && Verify(removed.Bytes(), pub) == nil
 	// alter: change the From display name
 	for _, f := range fields {
 		if strings.EqualFold(strings.TrimSpace(f.name), "From") {
@@ -529,6 +549,21 @@ func judge(out vtrace.Ev, got []byte, pub crypto.PublicKey, body []byte, firstFi
 	added := append([]byte("Subject: injected by the next hop\r\n"), got...)
 	tam["add_oversigned"] = Verify(added, pub) == nil
 	out["tamper"] = tam
+	// the h= layer: every configured name, every kind of tampering; TLC decides which had to be detected
+	for _, f := range fields { // (free text for the replay artefact: what the signer listed)
+		if strings.EqualFold(strings.TrimSpace(f.name), "DKIM-Signature") {
+			out["h"] = stripWS(parseTags(string(f.raw[bytes.IndexByte(f.raw, ':')+1:]))["h"])
+			break
+		}
+	}
+	ts, note := tamperings(fc, got, pub)
+	if ts == nil {
+		ts = []tamper{}
+	}
+	out["tampers"] = ts
+	if note != "" {
+		out["note"] = fmt.Sprint(out["note"], " | ", note)
+	}
 }
 
 // runPipeRow: the message is signed inside a real pipeline (check that adds an over-signed field,
@@ -537,19 +572,19 @@ func runPipeRow(t *testing.T, e *env, r Row, tr *vtrace.Tracer, domain, from str
 	registerPipeModules()
 	out := vtrace.Ev{"delivered": false, "signed": false, "verifiedIndep": false, "verifiedLib": false,
 		"tamper":   map[string]bool{"remove": false, "alter": false, "add_oversigned": false},
-		"hdrEqual": false, "bodyEqual": false, "note": "", "copies": 0, "fault": false}
+		"hdrEqual": false, "bodyEqual": false, "note": "", "copies": 0, "fault": false, "tampers": []tamper{}}
 	emit := func() { tr.Emit("Row", vtrace.Ev{"in": r.In, "out": out}) }
 	kdir := filepath.Join(e.dir, fmt.Sprintf("pipekeys-%s-%v", r.In.Key, r.In.Idn))
 	nodes := []config.Node{
 		{Name: "check", Children: []config.Node{{Name: "verif_addhdr"}}},
-		{Name: "modify", Children: []config.Node{{Name: "dkim", Children: []config.Node{
+		{Name: "modify", Children: []config.Node{{Name: "dkim", Children: append([]config.Node{
 			{Name: "domains", Args: []string{domain}},
 			{Name: "selector", Args: []string{"sel"}},
 			{Name: "key_path", Args: []string{filepath.Join(kdir, "{domain}.key")}},
 			{Name: "newkey_algo", Args: []string{r.In.Key}},
 			{Name: "header_canon", Args: []string{r.In.Hc}},
 			{Name: "body_canon", Args: []string{r.In.Bc}},
-		}}}},
+		}, r.In.Fc.nodes()...)}}},
 		{Name: "default_source", Children: []config.Node{{Name: "default_destination", Children: []config.Node{
 			{Name: "deliver_to", Args: []string{"verifdkq", "Q"}}}}}},
 	}
@@ -600,7 +635,7 @@ func runPipeRow(t *testing.T, e *env, r Row, tr *vtrace.Tracer, domain, from str
 	out["delivered"] = true
 	out["copies"] = 1 + e.extra
 	out["signed"] = bytes.Contains(got[:bytes.Index(got, []byte("\r\n\r\n"))+2], []byte("DKIM-Signature:"))
-	judge(out, got, pub, body, firstField, rawHdr[:len(rawHdr)-2])
+	judge(out, r.In.Fc, got, pub, body, firstField, rawHdr[:len(rawHdr)-2])
 	emit()
 }
 
